@@ -282,6 +282,34 @@ SUBS = [
     Sub("blocks", run_block, strategy=blocks_strategy, budget=(600, 20000), shards=(4, 16),
         rule="blocks of the four run-length types with 1..5 (12) tracks; run tables parsed from the block bytes; block decode under two poisons"),
 ]
+def enum_boundary(tier):
+    for kind in KINDS:
+        for B in (256, 1024, 4096, 65536) if kind != "force3D" else (256, 1024, 4096, 16384):
+            for pat in ("before", "after", "across", "single-before", "single-at", "two-gaps"):
+                yield {"kind": kind, "B": B, "pattern": pat}
+
+
+def run_boundary(ctx, case):
+    """long single tracks whose gaps start / end exactly at a power-of-two frame number"""
+    kind, B, pat = case["kind"], case["B"], case["pattern"]
+    n, k = B + 50, 7
+    lo, hi = {"before": (B - k, B), "after": (B, B + k), "across": (B - k, B + k), "single-before": (B - 1, B), "single-at": (B, B + 1),
+              "two-gaps": (B - 20, B - 10)}[pat]
+    missing = set(range(lo, hi)) | (set(range(B - 3, B)) if pat == "two-gaps" else set())
+    pf = specs.PER_FRAME[kind]
+    frames = []
+    for i in range(n):
+        if i in missing:
+            frames.append(None)
+        else:
+            v = [specs.finite32(specs.mix(B, i * 9 + j) >> 16) for j in range(pf)]
+            frames.append(v[0] if pf == 1 else v)
+    check_item(ctx, kind, frames)
+    ctx.case(case, True, labels=[kind, f"boundary={B}", pat])
+
+
+SUBS.append(Sub("boundary-masks", run_boundary, kind="enum", enumerate=enum_boundary, shards=(12, 16),
+                rule="single tracks of B+50 frames with gaps placed exactly before / after / across frame B, B in {256, 1024, 4096, 65536} (16384 for force/torque); finite, enumerated"))
 SUBS.append(Sub("long-tracks", run_block, strategy=specs.long_block_case, budget=(16, 400), shards=(8, 16),
                 rule="blocks with 1-2 tracks of 257 .. 131079 frames; gaps that start or end exactly at 256 / 1024 / 4096 / 8192 / 16384 / 65536 / 131072, "
                      "every second..fifth frame missing (thousands of runs), sparse gaps; all input dtypes / byte orders / layouts"))
